@@ -578,7 +578,7 @@ def _x_flag_readers(ctx):
     return out
 
 
-@rule("X-STRIP-GATE", ["C14", "C13", "C03", "C07", "C16"], floor=5)
+@rule("X-STRIP-GATE", ["C14", "C13", "C03", "C07", "C16", "C05"], floor=5)
 def x_strip_gate(ctx):
     """The stripping loop runs iff flag x is set and flag q is not, before the parser; its output replaces
     self.pattern together with self.len and is what ReProgram receives."""
@@ -633,6 +633,12 @@ def x_strip_gate(ctx):
                     bad_prog = strip_ver(render(e[2][0]))
     out.append(ok("stores-pattern-and-len") if n_store and bad_store is None else bad("stores-pattern-and-len", "after stripping, self.pattern and self.len must both be replaced (len = new pattern length); stores %s" % bad_store, b.loc(h)))
     out.append(ok("program-gets-stripped-pattern") if n_prog and bad_prog is None else bad("program-gets-stripped-pattern", "ReProgram::new must receive the stripped pattern (analyze rebuilds the group nesting from program.pattern); it receives %s" % bad_prog, b.loc(h)))
+    for o in out:
+        # what analyze's nesting scanner reads is program.pattern: that it is the text the parser accepted is what keeps
+        # the scanner's unchecked stack arithmetic in range (C05, audited in PANIC-INVENTORY); the other clauses are
+        # about when the stripper runs
+        if o.props is None:
+            o.props = ["C14", "C13", "C03", "C07", "C16"] + (["C05"] if o.key in ("program-gets-stripped-pattern", "stores-pattern-and-len") else [])
     return out
 
 
